@@ -148,5 +148,8 @@ def run(check, ctx):
     # OCB: an empty chunk is not the final call (every permitted sequence yields the one-shot result)
     from . import C09 as _c09
     _c09.ocb_transcrypt_seg(check, ctx.repo, rule="T-seg")
+    # the native sponge's life cycle: absorb after squeeze refused, digest does not consume, copies continue alike
+    from . import c_keccak
+    c_keccak.keccak_tables(check, ctx, rule="T-c", groups=("copy", "init"))
     check.undecided.append("every permitted sequence yields the one-shot "
                            "ciphertext/plaintext/tag (values)")
